@@ -5,23 +5,24 @@ From Ergo Require Import Common.Base Sched.Model.
 Record obs := mk_obs { o_tid : nat; o_en : bool; o_label : nat; o_st : nat; o_nthr : nat }.
 
 Record scase := mk_scase {
-  c_named : bool; c_self : list msg; c_initok : bool; c_threads : list pc;
+  c_named : bool; c_lim : nat; c_fb : bool; c_self : list msg; c_initok : bool; c_threads : list pc;
   c_sched : list nat;                 (* complete executed schedule *)
   c_obs : list obs;                   (* one observation per granted step *)
   c_events : list (nat * nat);        (* 1 begin id, 2 end id, 3 termbegin, 4 termend, 5 initbegin, 6 initend *)
   c_handled : list nat; c_oks : list nat; c_errs : list nat;
+  c_fbs : list nat;                   (* ids the fallback process received, wrapped in MessageFallback with the right pid and tag *)
   c_terms : nat; c_reason : Z; c_final : nat; c_qempty : bool }.
 
 (* hook label (as numbered by the harness) at which a thread in this pc is parked *)
 Definition pc_label (p : pc) : nat :=
   match p with
-  | S_load _ _ => 1 | S_alive _ _ _ => 2 | S_push _ _ _ => 3 | S_link _ _ _ => 4 | S_cas _ _ => 5 | S_spawn _ _ => 6
+  | S_load _ _ => 1 | S_alive _ _ _ => 2 | S_push _ _ _ => 3 | S_lim _ _ _ => 37 | S_link _ _ _ => 4 | S_cas _ _ => 5 | S_spawn _ _ => 6
   | R_start => 7 | R_next => 8 | R_state => 9 | R_pop _ => 10 | R_cb _ _ => 11 | R_call _ _ => 36 | R_w1 _ _ => 12 | R_w2 _ _ => 13
   | R_w3 _ _ => 14 | R_sleep => 15 | R_item _ => 16 | R_wake => 17 | R_swapT _ => 18 | R_unreg _ => 19
   | R_unreg2 _ => 20 | R_term0 _ => 21 | R_term _ => 22 | R_exit => 23
   | K_load => 24 | K_swapZ => 25 | K_storeT => 26 | K_swapT => 27 | K_unreg => 28 | K_unreg2 => 20 | K_spawn => 29
   | T_start => 30 | T_term => 22 | T_exit => 31
-  | P_init _ _ => 32 | P_cb _ _ => 33 | P_link _ _ _ => 4 | P_selfcas _ _ => 5 | P_selfspawn _ _ => 6
+  | P_init _ _ => 32 | P_cb _ _ => 33 | P_lim _ _ _ => 37 | P_link _ _ _ => 4 | P_selfcas _ _ => 5 | P_selfspawn _ _ => 6
   | P_sleep => 34 | P_store => 35 | P_cas => 5 | P_spawn => 6
   | Done => 0
   end.
@@ -59,7 +60,7 @@ Definition same_set (a b : list nat) : bool := subset a b && subset b a && Nat.e
 Fixpoint nodup_b (l : list nat) : bool :=
   match l with [] => true | x :: tl => negb (nmem x tl) && nodup_b tl end.
 
-Definition case_cfg (c : scase) : cfg := init_cfg (c_named c) (c_self c) (c_initok c) (c_threads c).
+Definition case_cfg (c : scase) : cfg := init_cfg (c_named c) (c_lim c) (c_fb c) (c_self c) (c_initok c) (c_threads c).
 
 (* model = implementation: every step's next hook, state word and thread count, and the final
    handled order, accepted / refused sets, terminate count and reason *)
@@ -69,7 +70,7 @@ Definition corr_ok (c : scase) : bool :=
   | Some f =>
       quiescent f
       && nlist_eqb (handled (sh f)) (c_handled c)
-      && same_set (oks (sh f)) (c_oks c) && same_set (errs (sh f)) (c_errs c)
+      && same_set (oks (sh f)) (c_oks c) && same_set (errs (sh f)) (c_errs c) && same_set (fbs (sh f)) (c_fbs c)
       && Nat.eqb (terms (sh f)) (c_terms c)
       && Z.eqb (match treason (sh f) with Some r => r | None => 0%Z end) (c_reason c)
       && Nat.eqb (st_nat (st (sh f))) (c_final c)
@@ -127,6 +128,10 @@ Definition spec_c05 (c : scase) : bool :=
 Definition spec_c02 (c : scase) : bool :=
   nodup_b (c_handled c)
   && forallb (fun x => negb (nmem x (c_handled c))) (c_errs c)
+  (* fallback: delivered to the fallback exactly once, never handled here, never also an error *)
+  && nodup_b (c_fbs c)
+  && forallb (fun x => negb (nmem x (c_handled c)) && negb (nmem x (c_errs c))) (c_fbs c)
+  && (c_fb c || Nat.eqb (length (c_fbs c)) 0)
   && subset (c_handled c) (c_oks c)
   && (negb (Nat.eqb (c_final c) 2) || (c_qempty c && same_set (c_handled c) (c_oks c))).
 
